@@ -24,7 +24,7 @@ Proof.
   assert (Hsafe : forall j ds, has st j -> PI j -> Forall (cov_rd st j) ds ->
                                Forall (safe_rd st PC PR PI) ds).
   { intros j ds Hj Hpj Hc. eapply Forall_impl; [|exact Hc]. intros x Hx.
-    destruct x as [m|c|r|c r]; simpl in *; try exact I.
+    destruct x as [m|c|r|c r|]; [| | | |simpl in *; contradiction]; simpl in *; try exact I.
     destruct Hx as (He & Hm). split; [|split; [exact I|exact Hm]].
     unfold PI. apply mem_node_false. intros Hin.
     apply (proj1 (mem_node_false _ _) Hpj). eapply Hclosed; eauto. }
@@ -111,7 +111,7 @@ Proof.
   set (PC := fun _ : cid => True). set (PR := fun _ : rid => True). set (PI := fun m : item => m <> i).
   assert (Hsafe : forall j ds, Forall (cov_rd st j) ds -> Forall (safe_rd st PC PR PI) ds).
   { intros j ds Hc. eapply Forall_impl; [|exact Hc]. intros x Hx.
-    destruct x as [m|c|r|c r]; simpl in *; try exact I.
+    destruct x as [m|c|r|c r|]; [| | | |simpl in *; contradiction]; simpl in *; try exact I.
     destruct Hx as (He & Hm). split; [|split; [exact I|exact Hm]]. intros ->. contradiction. }
   assert (AG : Agree st (defs_of st') (input_data st') PC PR PI).
   { constructor.
@@ -146,7 +146,7 @@ Proof.
   set (PC := fun c' : cid => c' <> c). set (PR := fun _ : rid => True). set (PI := fun _ : item => True).
   assert (Hsafe : forall j ds, Forall (cov_rd st j) ds -> Forall (safe_rd st PC PR PI) ds).
   { intros j ds Hc. eapply Forall_impl; [|exact Hc]. intros x Hx.
-    destruct x as [m|c'|r|c' r]; simpl in *; try exact I.
+    destruct x as [m|c'|r|c' r|]; [| | | |simpl in *; contradiction]; simpl in *; try exact I.
     - destruct Hx as (He & Hm). split; [exact I|]. split; [now apply Hheld|exact Hm].
     - destruct (cv_edge _ C _ _ Hx) as (Hn & _). exact (Hno _ Hn). }
   assert (AG : Agree st (defs_of st') (input_data st') PC PR PI).
@@ -202,7 +202,7 @@ Proof.
               forall y, In y ds -> match y with RAttr r' | RName _ r' => r' <> r | _ => True end).
   { intros j wv f ds Hl Hm Hown Hcov y Hy.
     pose proof (proj1 (Forall_forall _ _) Hcov y Hy) as Hc.
-    destruct y as [m|c|r'|c r']; try exact I.
+    destruct y as [m|c|r'|c r'|]; try exact I.
     - simpl in Hc. intros ->. exact (Hno3 j Hc).
     - intros ->. destruct (rname_own _ _ _ _ _ _ _ _ Hown Hy) as (cl & Elc & Hb).
       unfold defs_of in Elc; simpl in Elc.
@@ -227,7 +227,7 @@ Proof.
   { intros j wv f ds Hl Hm Hown Hcov. apply Forall_forall. intros y Hy.
     pose proof (Hnoread j wv f ds Hl Hm Hown Hcov y Hy) as Hn.
     pose proof (proj1 (Forall_forall _ _) Hcov y Hy) as Hc.
-    destruct y as [m|c|r'|c r']; simpl in *; auto. destruct Hc as (_ & Hh). repeat split; auto. }
+    destruct y as [m|c|r'|c r'|]; simpl in *; auto. destruct Hc as (_ & Hh). repeat split; auto. }
   assert (AG : Agree st3 (defs_of st4) (input_data st4) PC PR PI).
   { constructor.
     - intros c _. reflexivity.
